@@ -804,3 +804,33 @@ CASES["C20"] += [
     ("reintroduce F-39 (choose regions map operands by value)", "mutant", "snaxc/dialects/phs.py", "@revert:7151afe~1", "", ["C20.region-operands"]),
 ]
 
+
+CASES["C17"] += [
+    ("reintroduce F-40 (dim of a rank-reducing subview resolved through the sizes by result index)", "mutant", "snaxc/transforms/reuse_memref_allocs.py", "@revert:4f53ceb~1", "", ["C17.subview-rank"]),
+    ("rank guard compares the result with itself", "mutant", "snaxc/transforms/reuse_memref_allocs.py",
+     "if memref_op.result.type.get_num_dims() != len(memref_op.static_sizes.get_values()):", "if memref_op.result.type.get_num_dims() != len(memref_op.result.type.get_shape()):", ["C17.subview-rank"]),
+]
+
+CASES["C07"] += [
+    ("a field missing on one side counts as agreeing in state_intersection", "mutant", "snaxc/inference/trace_acc_state.py",
+     "return {k: a[k] for k in a if a[k] == b.get(k)}", "return {k: a[k] for k in a if a[k] == b.get(k, a[k])}", ["C07.intersection"]),
+]
+
+CASES["C11"] += [
+    ("only memref-typed results of casts are followed for lifetimes", "mutant", "snaxc/transforms/snax_allocate.py",
+     "                    for result in use.operation.results:\n                        yield from get_all_uses(result)",
+     "                    for result in use.operation.results:\n                        if isinstance(result.type, builtin.MemRefType):\n                            yield from get_all_uses(result)", ["C11.lifetime"]),
+]
+
+CASES["C19"] += [
+    ("dynamic bounds dropped by AccessPattern.canonicalize", "mutant", "snaxc/ir/dart/access_pattern.py",
+     "self.pattern.A[:, [bound is None or bound > 1 for bound in self.bounds]]", "self.pattern.A[:, [bound is not None and bound > 1 for bound in self.bounds]]", ["C19.pattern-canon"]),
+    ("inner_dims slices bounds and columns differently", "mutant", "snaxc/ir/dart/access_pattern.py",
+     "AffineTransform(self.pattern.A[:, -dim:], self.pattern.b),", "AffineTransform(self.pattern.A[:, :dim], self.pattern.b),", ["C19.inner-dims"]),
+]
+
+CASES["C08"] += [
+    ("gemmx looks for the rescale right behind the matmul", "mutant", "snaxc/accelerators/snax_gemmx.py",
+     "if isinstance(region_yield.prev_op, dart.GenericOp) and isinstance(\n                    rescale_op := region_yield.prev_op.body.block.first_op,",
+     "if isinstance(generic_op.next_op, dart.GenericOp) and isinstance(\n                    rescale_op := generic_op.next_op.body.block.first_op,", ["C08.rescale-source"]),
+]
